@@ -41,7 +41,7 @@ var _ mrand.Source = new(c03Script)
 
 // value range of variable k on a data set: as-is total and all-active total
 func c03Range(ds string, k int) (float64, float64) {
-	c := catchOpen(catchTestdata(ds), nil)
+	c := catchOpen(txPath(ds), nil)
 	lo := c.perUnit(catchVarNames[k]).Value()
 	for i := 0; i < c.nact; i++ {
 		c.m.SetManagementAction(i, true)
@@ -87,22 +87,40 @@ func runC03(args []string) {
 	p := newPrng(303)
 	stats := map[string]int{}
 	fails := 0
-	ds := "ValidModel.csv"
-	base := catchOpen(catchTestdata(ds), nil)
+	// the shipped data set with the full budget, generated random data sets with a smaller one
+	nGen := 2
+	if tier == "thorough" {
+		nGen = 10
+	}
+	genNames, genCleanup := txAddGenerated(p, nGen, stats)
+	defer genCleanup()
+	if tier == "thorough" {
+		c03OnDataset("ValidModel.csv", p, stats, &fails, 240, 1500, 36)
+		for _, g := range genNames {
+			c03OnDataset(g, p, stats, &fails, 60, 400, 6)
+		}
+	} else {
+		c03OnDataset("ValidModel.csv", p, stats, &fails, 96, 240, 12)
+		for _, g := range genNames {
+			c03OnDataset(g, p, stats, &fails, 24, 80, 4)
+		}
+	}
+}
+
+func c03OnDataset(ds string, p *prng, stats map[string]int, failsp *int, loopCases, iters, runs int) {
+	fails := 0
+	defer func() { *failsp += fails }()
+	base := catchOpen(txPath(ds), nil)
 	emit(base.export(ds))
 	n := base.nact
 
 	// ---------- (a) randomisation loops ----------
-	loopCases := 96
-	if tier == "thorough" {
-		loopCases = 240
-	}
 	for lc := 0; lc < loopCases; lc++ {
 		k := lc % 6
 		frac := []float64{0.05, 0.3, 0.6, 0.95, 1.5}[p.intn(5)]
 		limit := c03Limit(ds, k, frac)
 		prm := parameters.Map{catchLimitKeys[k]: limit}
-		c := catchOpen(catchTestdata(ds), prm)
+		c := catchOpen(txPath(ds), prm)
 		if lc%3 == 1 {
 			// the instance has a life behind it: an earlier Initialise(Random) + Randomize (what a previous run of the
 			// same explorer did) -- the limit must be enforced on the CURRENT state after re-initialisation too
@@ -157,23 +175,19 @@ func runC03(args []string) {
 		}
 		stats["loop:"+outcome]++
 		o := c.obs()
-		emit(J{"kind": "case", "sub": "loop", "limit": J{"var": k, "max": flOf(limit)}, "start": start, "picks": picks,
+		emit(J{"kind": "case", "sub": "loop", "dataset": ds, "limit": J{"var": k, "max": flOf(limit)}, "start": start, "picks": picks,
 			"outcome": outcome, "obs": o})
 		if outcome == "ok" {
 			v := c.perUnit(catchVarNames[k]).Value()
 			if v > limit {
 				fails++
-				emit(J{"kind": "oracle", "what": "limit exceeded after the randomisation loop", "limit": J{"var": k, "max": limit},
+				emit(J{"kind": "oracle", "dataset": ds, "what": "limit exceeded after the randomisation loop", "limit": J{"var": k, "max": limit},
 					"start": start, "picks": picks, "value": v})
 			}
 		}
 	}
 
 	// ---------- (b) full runs ----------
-	iters, runs := 240, 12
-	if tier == "thorough" {
-		iters, runs = 1500, 36
-	}
 	for r := 0; r < runs; r++ {
 		k := r % 6
 		family := []string{"kirkpatrick", "suppapitnarm"}[(r/6+r)%2]
@@ -188,8 +202,8 @@ func runC03(args []string) {
 		for attempts < 12 { // D14(b): the attempt-limit panic strikes randomly; it is an outcome, try again
 			attempts++
 			trace = trace[:0]
-			c := catchOpen(catchTestdata(ds), prm)
-			scratch := catchOpen(catchTestdata(ds), prm)
+			c := catchOpen(txPath(ds), prm)
+			scratch := catchOpen(txPath(ds), prm)
 			record := func(cur *catchInst, arch []*archive.CompressedModelState) {
 				e := J{"bits": c03Bits(cur), "val": cur.grid(cur.perUnit(catchVarNames[k]).Value(), catchVarScale[k])}
 				entries := make([]J, 0)
@@ -285,7 +299,7 @@ func runC03(args []string) {
 		}
 		if runErr != "" && !strings.Contains(runErr, "Attempt limit reached") {
 			fails++
-			emit(J{"kind": "oracle", "what": "run panicked: " + runErr, "family": family, "limit": J{"var": k, "max": limit}})
+			emit(J{"kind": "oracle", "dataset": ds, "what": "run panicked: " + runErr, "family": family, "limit": J{"var": k, "max": limit}})
 			continue
 		}
 		if runErr != "" {
@@ -308,14 +322,14 @@ func runC03(args []string) {
 			if bad != "" {
 				fails++
 				if fails <= 5 {
-					emit(J{"kind": "oracle", "what": bad, "family": family, "limit": J{"var": k, "max": limit}, "trace_prefix": trace[:t+1]})
+					emit(J{"kind": "oracle", "dataset": ds, "what": bad, "family": family, "limit": J{"var": k, "max": limit}, "trace_prefix": trace[:t+1]})
 				}
 				break
 			}
 		}
-		emit(J{"kind": "case", "sub": "run", "family": family, "limit": J{"var": k, "max": flOf(limit)}, "trace": trace})
+		emit(J{"kind": "case", "sub": "run", "dataset": ds, "family": family, "limit": J{"var": k, "max": flOf(limit)}, "trace": trace})
 		if family == "suppapitnarm" {
-			emit(J{"kind": "case", "sub": "crun", "limit": J{"var": k, "max": flOf(limit)}, "start": cstart, "steps": append([]J{}, csteps...)})
+			emit(J{"kind": "case", "sub": "crun", "dataset": ds, "limit": J{"var": k, "max": flOf(limit)}, "start": cstart, "steps": append([]J{}, csteps...)})
 			stats["composed_steps"] += len(csteps)
 		}
 	}
